@@ -28,13 +28,14 @@ NarrowOK(x, d) ==
     ELSE d.c = "fin" /\ d.neg = x.neg /\ RoundedOK(x.m, BNOne, x.e, d, 53)
 
 CmpWrong(e) ==
-    {f \in {"lt", "le", "gt", "ge", "pc", "eq", "min", "max"} :
+    {f \in {"lt", "le", "gt", "ge", "pc", "eq", "ne", "min", "max"} :
         CASE f = "lt" -> e.lt # Lt(e.x, e.y)
           [] f = "le" -> e.le # Le(e.x, e.y)
           [] f = "gt" -> e.gt # Gt(e.x, e.y)
           [] f = "ge" -> e.ge # Ge(e.x, e.y)
           [] f = "pc" -> e.pc # PartialCmp(e.x, e.y)
           [] f = "eq" -> e.eq # EqV(e.x, e.y)              \* == consistent with partial_cmp
+          [] f = "ne" -> e.ne # (~EqV(e.x, e.y))           \* != is its negation (also with the same object on both sides)
           [] f = "min" -> ~MinOK(e.x, e.y, e.min)
           [] f = "max" -> ~MaxOK(e.x, e.y, e.max)}
 
